@@ -13,13 +13,16 @@ from ..pattext import render
 PID = "C08"
 
 PROFILES = {
-    "props": (["Leaf", "SubLeaf", "Opt"], {("Leaf", "a"): {0, 1}, ("SubLeaf", "c"): {0, 1}}, 3, 4, 1),
-    "struct": (["Leaf", "Unary", "Many", "Bin"], {("Leaf", "a"): {0, 1}}, 3, 4, 2),
+    # name: (classes, prop table, objs quick, objs thorough, MaxTuple quick, MaxTuple thorough)
+    # (struct with 4 objects runs TLC out of memory: the thorough tier widens tuples instead)
+    "props": (["Leaf", "SubLeaf", "Opt"], {("Leaf", "a"): {0, 1}, ("SubLeaf", "c"): {0, 1}}, 3, 4, 1, 1),
+    "struct": (["Leaf", "Unary", "Many", "Bin"], {("Leaf", "a"): {0, 1}}, 3, 3, 2, 3),
 }
 
 
-def gen_cases(chk, profile, nobj):
-    classes, ptab, _, _, mt = PROFILES[profile]
+def gen_cases(chk, profile, nobj, thorough=False):
+    classes, ptab, _, _, mtq, mtt = PROFILES[profile]
+    mt = mtt if thorough else mtq
     mod, cfg = inst.instance(
         "I_Pattern", "Gen_Pattern",
         dict(MaxObjs=nobj, MaxTuple=mt, GenClasses=set(classes), Origins={0, 1}, PropAtoms="@op:PA"),
@@ -338,9 +341,9 @@ def run(chk: core.Check):
                 "Non-trivial: matching patterns with at least one field. Trace: random patterns (depth <= 3) written "
                 "against random nodes, validated by Trace_Pattern.tla.")
     allraw = []
-    for prof, (_, _, nq, nt, _) in PROFILES.items():
-        raw = gen_cases(chk, prof, nq if quick else nt)
-        chk.bounds[prof] = {"MaxObjs": nq if quick else nt, "classes": PROFILES[prof][0]}
+    for prof, (_, _, nq, nt, mtq, mtt) in PROFILES.items():
+        raw = gen_cases(chk, prof, nq if quick else nt, thorough=not quick)
+        chk.bounds[prof] = {"MaxObjs": nq if quick else nt, "MaxTuple": mtq if quick else mtt, "classes": PROFILES[prof][0]}
         allraw.extend(raw)
     if allraw:
         c = tlc.decode(allraw[len(allraw) // 2])
